@@ -1,7 +1,8 @@
 from contracts.workspace_io import IoCall, UpdateAttributeGuard, FetchActiveWorkspace, structural_scan
 from contracts.sessions import ReadOnlyHistories
 from contracts.tree import OpenMode
-CONTRACTS = [IoCall, UpdateAttributeGuard, FetchActiveWorkspace, OpenMode, ReadOnlyHistories]
+from contracts.reader import LoadStoredRoot
+CONTRACTS = [IoCall, UpdateAttributeGuard, FetchActiveWorkspace, OpenMode, LoadStoredRoot, ReadOnlyHistories]
 EXTRA_CHECKS = [structural_scan]
 
 MANIFEST = {
